@@ -20,7 +20,7 @@ HOW = {"Attr": "Attr", "TraitSet": "TraitSet", "Ctor": "Ctor"}
 def to_term(case, ob):
     env = pv.env_term(110, ob["orc"], ob["re"])
     dfl = dict((n, w) for n, w in ob["defaults"])
-    cls = [(int(n), (pv.desc_term(d), pv.val_term(dfl[n]))) for n, d in case["traits"]]
+    cls = [(int(t[0]), (pv.desc_term(t[1]), pv.val_term(dfl[t[0]]))) for t in case["traits"]]
     h = []
     for (how, kws), st in zip(case["ops"], ob["steps"]):
         # the quiet routes (notifications off) must behave exactly like trait_set: same model operation
@@ -32,7 +32,7 @@ def to_term(case, ob):
 
 def _first(case, step):
     how, kws = case["ops"][step]
-    descs = dict((n, d) for n, d in case["traits"])
+    descs = dict((t[0], t[1]) for t in case["traits"])
     n, v = kws[0]
     return how, descs[n], v
 
@@ -54,7 +54,7 @@ def describe(case, ob, code):
     step, clause = code // 100, code % 100
     how, d, v = _first(case, step)
     return "step %d (%s) of a history on traits %s: %s <- %s: clause %s: observed %r" % (
-        step, how, ", ".join(pv.shape(x) for _, x in case["traits"]), pv.shape(d), json.dumps(v)[:100],
+        step, how, ", ".join(pv.shape(t[1]) for t in case["traits"]), pv.shape(d), json.dumps(v)[:100],
         CLAUSE.get(clause, "model-vs-implementation"), {k: ob["steps"][step][k] for k in ("out", "names", "after")})
 
 
@@ -121,6 +121,24 @@ def corpus():
             ["PTuple", [["PInt", 1], ["PInt", 2]]], ["PInt", 1], ["PTuple", [["PNpInt", 15, 1], ["PIntSub", 3], ["PNone"]]],
             ["PTuple", [S("a"), ["PInt", 2], ["PInt", 5]]], ["PNone"])
         one(["DTuple", [["DFloat"], ["DFloat"]], "Validated", fv], ["PTuple", [["PInt", 1], ["PInt", 2]]], how="Ctor")
+    # settable validated Property(<trait>): the SETTER must receive the validated value (the Python validate is used:
+    # configurations and values on which it coincides with the compiled one)
+    pvals = [["PInt", 3], S("42"), S("n"), S("no"), ["PTuple", [["PInt", 1], ["PInt", 2]]], ["PFloat", F(0.5)], ["PBool", True],
+             ["PNone"], ["PIntSub", 3], ["PNpInt", 15, 1], S("abc"), ["PTuple", [["PInt", 1], S("a")]], ["PInt", 2 ** 70],
+             ["PNpFloat", 17, F(0.5)], ["PIndexObj", ["Returns", 1]], ["PList", [["PInt", 1], ["PInt", 2]]]]
+    for d in (["DFloat"], ["DCast", "CTInt"], ["DPrefixList", [pv.W("yes"), pv.W("no"), pv.W("nope")]],
+              ["DTuple", [["DFloat"], ["DFloat"]]], ["DInt"], ["DRangeI", 0, 5, 1], ["DString", 2, 4, None], ["DBool"],
+              ["DCast", "CTFloat"], ["DComplex"], ["DUnion", [["DFloat"], ["DStr"]]]):
+        for how in ("Attr", "TraitSet", "Ctor", "TraitSetq"):
+            cs.append(dict(traits=[[0, d, "property"], [1, ["DInt"]]], ops=[[how, [[0, v]]] for v in pvals]))
+    # Range whose bounds are given BY TRAIT NAME (dynamic Range): every endpoint x every exclusion combination, with the
+    # bound traits at their initial values and after they moved
+    for lo, hi, lo0, hi0 in ((0, 5, 0, 5), (2, 7, 0, 5), (-3, 3, 1, 2), (4, 4, 0, 9)):
+        for mask in (0, 1, 2, 3):
+            d = ["DRangeI", lo, hi, mask, "dynamic", lo0, hi0]
+            vals = [["PInt", z] for z in (lo, hi, lo - 1, hi + 1, lo + 1, hi - 1)] + [["PNone"], ["PBool", True], ["PTuple", []]]
+            cs.append(dict(traits=[[0, d], [1, ["DInt"]]], ops=[["Attr", [[0, v]]] for v in vals]))
+            cs.append(dict(traits=[[0, d], [1, ["DInt"]]], ops=[["TraitSet", [[0, v]]] for v in vals[:4]] + [["TraitSetq", [[0, vals[1]]]]]))
     # membership tests against a value whose == has no truth value (numpy array of size > 1) / that is unhashable:
     # the rejection must be a TraitError naming the attribute, not numpy's ValueError
     arr = [["PArray", 32, [3], 0], ["PArray", 30, [2, 3], 1], ["PArray", 36, [2], 0]]
